@@ -150,3 +150,37 @@ def context_construction(chk, prefix="C08"):
                         chk.prove(f"{prefix}.ctx.child_context_fresh_each_call", s3.pc, g3,
                                   desc="a second create_child_context(p) with the same p returns a NEW context object with its own counter at 0 (no caching: a resumed branch re-issues its operations under the same ids)")
         chk.prove(f"{prefix}.ctx.root_context", s.pc, goal, desc="the root context has no parent id and a fresh counter at 0")
+
+
+def input_payload_contract(chk, prefix="C18"):
+    """InitialExecutionState.get_execution_operation / get_input_payload: the contract the wrapper uses at its call site"""
+    from pyvc.engine import Engine as _E
+    eng = _E(hooks=ExecHooks())
+    P = eng.program
+    ies_cls = P.cls("execution.InitialExecutionState")
+    tcls = P.cls("lambda_service.OperationType")
+    T_ = enum_sort(tcls)[1]
+    for nonempty in (False, True):
+        st = St()
+        payload = eng.sym_of_type("str | None", "input_payload", st)
+        det = mk_opt(z3.Bool("details.none"), st.alloc(P.cls("lambda_service.ExecutionDetails"), {"input_payload": payload}))
+        typ = fresh("enum", "first_type", tcls)
+        first = st.alloc(P.cls("lambda_service.Operation"), {"operation_id": fresh("str", "id"), "operation_type": typ, "status": fresh("enum", "status", P.cls("lambda_service.OperationStatus")),
+                                                             "execution_details": det})
+        ops_list = st.alloc("list", {"__kind__": "list", "items": (first, st.alloc("opaque:Operation", {})) if nonempty else ()})
+        ies = st.alloc(ies_cls, {"operations": ops_list, "next_marker": ""})
+        for q in ("get_execution_operation", "get_input_payload"):
+            chk.function(f"execution.InitialExecutionState.{q}")
+        for k, v, s in eng.run(ies_cls.find_method("get_input_payload"), [ies], st=st):
+            chk.paths += 1
+            if not nonempty:
+                goal = z3.BoolVal(k == "val" and v is None)
+            else:
+                is_exec = typ.t == T_["EXECUTION"]
+                if k == "raise":
+                    goal = z3.And(z3.Not(is_exec), z3.BoolVal(isinstance(v, Ref) and getattr(v.cls, "name", "") == "DurableExecutionsError"))
+                else:
+                    goal = z3.And(is_exec, z3.If(is_none(det), z3.BoolVal(v is None) if not isinstance(v, Opt) else is_none(v), ops.values_equal(s, v, payload) if v is not None else is_none(payload)))
+            chk.prove(f"{prefix}.exec.input_payload", s.pc, goal,
+                      desc="get_input_payload(): no operations => None; first operation is the EXECUTION record => its input payload (None without details); first operation of another type => DurableExecutionsError (malformed invocation payload, raised before any thread starts)")
+    return eng
